@@ -156,8 +156,14 @@ func (e *Engine) rangeNext(st *State, it PtrV, x *ssa.Next) Val {
 	}
 	keys := sv.F[1].(ArrV).E
 	mv := sv.F[2].(MapV)
-	kz := e.zero(st, tt.At(1).Type())
-	vz := e.zero(st, tt.At(2).Type())
+	zeroOrNil := func(t types.Type) Val {
+		if b, ok := t.(*types.Basic); ok && b.Kind() == types.Invalid {
+			return nil // component not used by the loop
+		}
+		return e.zero(st, t)
+	}
+	kz := zeroOrNil(tt.At(1).Type())
+	vz := zeroOrNil(tt.At(2).Type())
 	for pos < len(keys) {
 		k := keys[pos]
 		pos++
